@@ -81,3 +81,31 @@ Proof. unfold flat. induction l as [|x r IH]; intro acc; [reflexivity|]. cbn [fo
 Lemma flat_cons x l : flat (x :: l) = flat l ++ x.
 Proof. unfold flat at 1. cbn [fold_left]. rewrite flat_acc, app_nil_r. reflexivity. Qed.
 Lemma flat_nil : flat [] = []. Proof. reflexivity. Qed.
+
+(* framing: a run that does not fail never looks below the stack it started from *)
+Lemma close_frame n S0 m S stk : close n S0 = (m, S) -> m <> Bad -> close n (S0 ++ stk) = (m, S ++ stk).
+Proof. unfold close. destruct S0 as [|t r]; [intros H; injection H as <- _; intro N; contradiction N; reflexivity|].
+  cbn [app]. destruct (str_eqb t n); intros H; injection H as <- <-; intro N; [reflexivity|contradiction N; reflexivity]. Qed.
+Lemma tstep_bad c stk : tstep (Bad, stk) c = (Bad, stk). Proof. reflexivity. Qed.
+Lemma run_bad x stk : run x (Bad, stk) = (Bad, stk).
+Proof. induction x as [|c r IH]; [reflexivity|]. unfold run in *; cbn [fold_left]. rewrite tstep_bad. exact IH. Qed.
+Lemma tstep_frame c m0 S0 m S stk : tstep (m0, S0) c = (m, S) -> m <> Bad -> tstep (m0, S0 ++ stk) c = (m, S ++ stk).
+Proof. unfold tstep. destruct m0 as [| |acc|n sl|acc|n| |].
+  - destruct (c =? 60); intros H; injection H as <- <-; reflexivity.
+  - destruct (c =? 47); [intros H; injection H as <- <-; reflexivity|]. destruct (is_name_char c); [intros H; injection H as <- <-; reflexivity|].
+    destruct ((c =? 63) || (c =? 33)); intros H; injection H as <- <-; reflexivity.
+  - destruct (is_name_char c); [intros H; injection H as <- <-; reflexivity|]. destruct (c =? 62); [intros H; injection H as <- <-; reflexivity|].
+    destruct (c =? 47); intros H; injection H as <- <-; reflexivity.
+  - destruct (c =? 62); [destruct sl; intros H; injection H as <- <-; reflexivity|]. destruct (c =? 47); intros H; injection H as <- <-; reflexivity.
+  - destruct (is_name_char c); [intros H; injection H as <- <-; reflexivity|]. destruct (c =? 62); [apply close_frame|intros H; injection H as <- <-; reflexivity].
+  - destruct (c =? 62); [apply close_frame|intros H; injection H as <- <-; reflexivity].
+  - destruct (c =? 62); intros H; injection H as <- <-; reflexivity.
+  - intros H; injection H as <- <-; reflexivity.
+Qed.
+Lemma run_frame x : forall m0 S0 m S stk, run x (m0, S0) = (m, S) -> m <> Bad -> run x (m0, S0 ++ stk) = (m, S ++ stk).
+Proof. induction x as [|c r IH]; intros m0 S0 m S stk H N.
+  - cbn in H. injection H as <- <-. reflexivity.
+  - unfold run in *; cbn [fold_left] in *. destruct (tstep (m0, S0) c) as [m1 S1] eqn:E.
+    destruct m1; try (rewrite (tstep_frame _ _ _ _ _ stk E) by discriminate; apply (IH _ _ _ _ stk H N)).
+    fold (run r (Bad, S1)) in H. rewrite run_bad in H. injection H as <- _. contradiction N; reflexivity.
+Qed.
